@@ -954,6 +954,8 @@ def gen_churn_scripts(tier, seed, variant):
     out = "".join(gen_map.make_churn_script(rng, f"g{seed}_{i}", table=(i % 3 == 2), length=ln) for i in range(n))
     # churn that is reclaimed IN PLACE: exact fill, removals leaving tombstones, new keys until the table rehashes
     out += "".join(gen_map.make_rehash_script(rng, f"gr{seed}_{i}", table=(i % 3 == 2), fresh=rng.choice(["insert", "entry_or_insert", "insert"])) for i in range(n // 2))
+    # churn that empties the table completely by individual removals (tombstones all over), refills, empties again
+    out += "".join(gen_map.make_empty_refill_script(rng, f"ge{seed}_{i}", table=(i % 3 == 2)) for i in range(n // 3))
     return out
 
 def check_c13(run):
